@@ -150,6 +150,15 @@ def run(facts, tier):
         t3.examined("dec-from-text", True, {"decimal_built_from_lexed_text": ok, "constructor_sites": len(decs)})
         if not ok:
             t3.violate("dec-from-text", "a non-integer number literal is not stored as the text that was lexed (it would be printed differently from how it was read)", where=pn[0]["sp"])
+        # every non-integer literal takes that route: in the `not an integer` branch the only number built is Dec
+        iffs = [n for n in find(pn[0]["body"], lambda n: n.get("k") == "If" and any(c.endswith("is_int") for c in callees(n["c"])))]
+        if len(iffs) != 1 or iffs[0].get("f") is None:
+            t3.violate("nonint-branch", "parse_num no longer decides integer / non-integer literals by one `is_int` test", where=pn[0]["sp"])
+        else:
+            built = sorted({(strip(n["f"]).get("path") or {}).get("def", "").split("::")[-1] for n in find(iffs[0]["f"], lambda n: n.get("k") == "Call" and ((strip(n["f"]).get("path") or {}).get("def") or "").startswith("jaq_json::num::Num::"))})
+            t3.examined("nonint-only-dec", True, {"non_integer_literals_become": built})
+            if built != ["Dec"]:
+                t3.violate("nonint-only-dec", f"non-integer literals are turned into {built}; only the text-preserving Dec keeps `1.10`, `1e1000` or `0.000001` printable as read", where=iffs[0]["sp"])
     disp = facts.hir_fn("<jaq_json::num::Num as core::fmt::Display>::fmt")
     if disp is None:
         t3.missing_anchor("Display for Num")
@@ -185,6 +194,15 @@ def run(facts, tier):
             t3.examined(("keyword", kw), True, {"keyword": kw, "written_and_read": ok})
             if not ok:
                 t3.violate(f"keyword/{kw}", f"`{kw}` is not spelled identically by writer and reader")
+    tj = facts.hir_fn("jaq_json::Val::to_json")
+    if tj is None:
+        t3.missing_anchor("Val::to_json")
+    else:
+        cl = callees(tj["body"])
+        ok = any(c.startswith("jaq_json::write::write") for c in cl) and not any(re.search(r"ToString::to_string$|alloc::fmt::format|core::fmt::Display", c) for c in cl)
+        t3.examined("tojson-writer", True, {"tojson_uses_byte_preserving_writer": ok})
+        if not ok:
+            t3.violate("tojson-writer", "tojson does not go through the byte-preserving JSON writer (Display replaces invalid UTF-8 by U+FFFD, so text strings would change)", where=tj["sp"])
     rules.append(t3.finish())
 
     # ---------------- T7.4 map type and insertion order
